@@ -17,6 +17,13 @@ package c06
 //
 // A status is ok, err or panic. The 'S' frame lets the parent name the call
 // that was in flight when the process died or stopped answering.
+//
+// Two more calls follow the scanners in the index space (pseudoCalls): all
+// scanners at once on one layer, and the real indexer.LayerScanner.Scan. They
+// observe what only concurrency can break: scanners share the layer's tarfs.FS
+// and package-level state, and a fatal runtime error (concurrent map access, a
+// panic in a scanner goroutine of LayerScanner.Scan) cannot be recovered: the
+// worker dies and the parent holds the layer.
 
 import (
 	"bufio"
@@ -36,6 +43,7 @@ import (
 	"runtime/debug"
 	"strconv"
 	"strings"
+	"sync"
 	"syscall"
 	"time"
 
@@ -60,6 +68,10 @@ import (
 const (
 	envWorker    = "C06_WORKER"
 	envWorkerDir = "C06_WORKER_DIR"
+	// envWorkerRace: the worker binary is built with the race detector (its
+	// shadow memory needs the address space: no rlimit, a higher backstop; no
+	// warm-up, allocation is not looked at in this mode).
+	envWorkerRace = "C06_WORKER_RACE"
 
 	// workerASLimit is the hard address-space limit of a worker: an absurd
 	// allocation becomes a crash of the worker instead of hurting the machine.
@@ -107,6 +119,125 @@ func writeWorkerConfig(dir string) error {
 
 func scannerID(s indexer.VersionedScanner) string { return s.Kind() + "/" + s.Name() }
 
+// The calls after the scanners, by offset from len(scanners).
+var pseudoCalls = []string{"concurrent/all-scanners", "concurrent/LayerScanner.Scan"}
+
+const (
+	pseudoFanOut = 0
+	pseudoReal   = 1
+
+	// concurrentProcs is GOMAXPROCS during the concurrent calls (the worker
+	// runs everything else on one).
+	concurrentProcs = 4
+)
+
+func defaultEcosystems(ctx context.Context) []*indexer.Ecosystem {
+	noRepo := func(context.Context) ([]indexer.RepositoryScanner, error) { return nil, nil }
+	extra := &indexer.Ecosystem{
+		Name: "c06-extra",
+		PackageScanners: func(context.Context) ([]indexer.PackageScanner, error) {
+			return []indexer.PackageScanner{&nodejs.Scanner{}, &pkgconfig.Scanner{}}, nil
+		},
+		DistributionScanners: func(context.Context) ([]indexer.DistributionScanner, error) {
+			return []indexer.DistributionScanner{&osrelease.Scanner{}}, nil
+		},
+		RepositoryScanners: noRepo,
+	}
+	return []*indexer.Ecosystem{
+		dpkg.NewEcosystem(ctx),
+		alpine.NewEcosystem(ctx),
+		rhel.NewEcosystem(ctx),
+		rpm.NewEcosystem(ctx),
+		python.NewEcosystem(ctx),
+		java.NewEcosystem(ctx),
+		rhcc.NewEcosystem(ctx),
+		gobin.NewEcosystem(ctx),
+		ruby.NewEcosystem(ctx),
+		whiteout.NewEcosystem(ctx),
+		extra,
+	}
+}
+
+func scannerConfigs(dir string) map[string]string {
+	return map[string]string{
+		"repository/rhel-repository-scanner": fmt.Sprintf(`{"repo2cpe_mapping_file":%q,"api":"http://c06.invalid/api/","timeout":2000000000}`, filepath.Join(dir, "repo2cpe.json")),
+		"package/rhel_containerscanner":      fmt.Sprintf(`{"name2repos_mapping_file":%q,"timeout":2000000000}`, filepath.Join(dir, "name2repos.json")),
+		"package/java":                       `{"api":"http://c06.invalid/solrsearch/select","api_request_timeout":2000000000}`,
+	}
+}
+
+// nullStore is the indexer.Store handed to the real LayerScanner: nothing is
+// ever scanned already, everything indexed is counted and dropped. The methods
+// LayerScanner does not call are those of the embedded nil interface.
+type nullStore struct {
+	indexer.Store
+	mu      sync.Mutex
+	indexed int
+	set     int
+}
+
+func (s *nullStore) count(n int) error {
+	s.mu.Lock()
+	s.indexed += n
+	s.mu.Unlock()
+	return nil
+}
+
+func (s *nullStore) LayerScanned(context.Context, claircore.Digest, indexer.VersionedScanner) (bool, error) {
+	return false, nil
+}
+
+func (s *nullStore) SetLayerScanned(context.Context, claircore.Digest, indexer.VersionedScanner) error {
+	s.mu.Lock()
+	s.set++
+	s.mu.Unlock()
+	return nil
+}
+
+func (s *nullStore) IndexPackages(_ context.Context, v []*claircore.Package, _ *claircore.Layer, _ indexer.VersionedScanner) error {
+	return s.count(len(v))
+}
+
+func (s *nullStore) IndexDistributions(_ context.Context, v []*claircore.Distribution, _ *claircore.Layer, _ indexer.VersionedScanner) error {
+	return s.count(len(v))
+}
+
+func (s *nullStore) IndexRepositories(_ context.Context, v []*claircore.Repository, _ *claircore.Layer, _ indexer.VersionedScanner) error {
+	return s.count(len(v))
+}
+
+func (s *nullStore) IndexFiles(_ context.Context, v []claircore.File, _ *claircore.Layer, _ indexer.VersionedScanner) error {
+	return s.count(len(v))
+}
+
+// buildLayerScanner constructs the real indexer.LayerScanner over the same
+// ecosystems and configuration.
+func buildLayerScanner(ctx context.Context, dir string, store indexer.Store) (*indexer.LayerScanner, error) {
+	opts := &indexer.Options{
+		Client:     &http.Client{Transport: offlineTransport{}},
+		Store:      store,
+		Ecosystems: defaultEcosystems(ctx),
+	}
+	opts.ScannerConfig.Package = map[string]func(interface{}) error{}
+	opts.ScannerConfig.Dist = map[string]func(interface{}) error{}
+	opts.ScannerConfig.Repo = map[string]func(interface{}) error{}
+	opts.ScannerConfig.File = map[string]func(interface{}) error{}
+	for id, c := range scannerConfigs(dir) {
+		c := c
+		kind, name, _ := strings.Cut(id, "/")
+		f := func(v interface{}) error { return json.Unmarshal([]byte(c), v) }
+		switch kind {
+		case "package":
+			opts.ScannerConfig.Package[name] = f
+		case "repository":
+			opts.ScannerConfig.Repo[name] = f
+		case "distribution":
+			opts.ScannerConfig.Dist[name] = f
+		}
+	}
+	return indexer.NewLayerScanner(ctx, 64, opts)
+}
+
 // buildScanners constructs what libindex.New builds by default (the nine
 // ecosystems plus whiteout, through indexer.EcosystemsToScanners), plus the
 // exported layer scanners that no default ecosystem holds, and configures them
@@ -139,11 +270,7 @@ func buildScanners(ctx context.Context, dir string) (out []indexer.VersionedScan
 			all = append(all, s)
 		}
 	}
-	cfgs := map[string]string{
-		"repository/rhel-repository-scanner": fmt.Sprintf(`{"repo2cpe_mapping_file":%q,"api":"http://c06.invalid/api/","timeout":2000000000}`, filepath.Join(dir, "repo2cpe.json")),
-		"package/rhel_containerscanner":      fmt.Sprintf(`{"name2repos_mapping_file":%q,"timeout":2000000000}`, filepath.Join(dir, "name2repos.json")),
-		"package/java":                       `{"api":"http://c06.invalid/solrsearch/select","api_request_timeout":2000000000}`,
-	}
+	cfgs := scannerConfigs(dir)
 	client := &http.Client{Transport: offlineTransport{}}
 	for _, s := range all {
 		id := scannerID(s)
@@ -308,6 +435,10 @@ func scanWith(s indexer.VersionedScanner, l *claircore.Layer) func(context.Conte
 type workerState struct {
 	out      *bufio.Writer
 	scanners []indexer.VersionedScanner
+	real     *indexer.LayerScanner
+	store    *nullStore
+	// seq is what the sequential run of the current layer answered, by scanner.
+	seq map[int]string
 }
 
 func (w *workerState) send(typ byte, s string) {
@@ -339,14 +470,24 @@ func (w *workerState) layer(blob []byte, idx []int, report bool) {
 		w.send('R', fmt.Sprintf("-1 %s 0 %d %d %s", o.status, o.alloc, o.leaked, o.msg))
 	}
 	if o.status == "ok" {
+		w.seq = map[int]string{}
 		for _, i := range idx {
-			if i < 0 || i >= len(w.scanners) {
+			if i < 0 || i >= len(w.scanners)+len(pseudoCalls) {
 				continue
 			}
 			if report {
 				w.send('S', strconv.Itoa(i))
 			}
-			o := measured(scanWith(w.scanners[i], &l))
+			var o callOut
+			switch i - len(w.scanners) {
+			case pseudoFanOut:
+				o = w.fanOut(blob, &desc)
+			case pseudoReal:
+				o = w.realScan(blob, &desc)
+			default:
+				o = measured(scanWith(w.scanners[i], &l))
+				w.seq[i] = fmt.Sprintf("%s/%d", o.status, o.items)
+			}
 			if report {
 				w.send('R', fmt.Sprintf("%d %s %d %d %d %s", i, o.status, o.items, o.alloc, o.leaked, o.msg))
 			}
@@ -359,6 +500,101 @@ func (w *workerState) layer(blob []byte, idx []int, report bool) {
 	if report {
 		w.send('D', "")
 	}
+}
+
+// fanOut runs every scanner at once, twice: on two Layer values opened from
+// the same blob (what two manifests sharing a layer look like to the scanners:
+// the same scanner values, the same layer digest, different tarfs.FS), all
+// goroutines released together. Every goroutine recovers its own panic, so a
+// panic names its scanner; a fatal runtime error kills the worker. items is
+// the number of scans that returned; the message lists the scanners whose
+// answer differs from the sequential run of the same layer.
+func (w *workerState) fanOut(blob []byte, desc *claircore.LayerDescription) callOut {
+	prev := runtime.GOMAXPROCS(concurrentProcs)
+	defer runtime.GOMAXPROCS(prev)
+	return measured(func(ctx context.Context) (int, error) {
+		var ls [2]claircore.Layer
+		for k := range ls {
+			if err := ls[k].Init(ctx, desc, bytes.NewReader(blob)); err != nil {
+				return 0, fmt.Errorf("second Init of the same blob failed: %w", err)
+			}
+			defer ls[k].Close()
+		}
+		type res struct {
+			out   string
+			panic string
+		}
+		results := make([]res, 2*len(w.scanners))
+		start := make(chan struct{})
+		var wg sync.WaitGroup
+		for k := range ls {
+			for i, s := range w.scanners {
+				wg.Add(1)
+				go func(slot int, s indexer.VersionedScanner, l *claircore.Layer) {
+					defer wg.Done()
+					defer func() {
+						if e := recover(); e != nil {
+							results[slot].panic = oneLine(fmt.Sprint(e), 200) + " at " + panicSite()
+						}
+					}()
+					<-start
+					n, err := scanWith(s, l)(ctx)
+					st := "ok"
+					if err != nil {
+						st = "err"
+					}
+					results[slot].out = fmt.Sprintf("%s/%d", st, n)
+				}(k*len(w.scanners)+i, s, &ls[k])
+			}
+		}
+		close(start)
+		wg.Wait()
+		done := 0
+		var diff []string
+		for slot, r := range results {
+			i := slot % len(w.scanners)
+			if r.panic != "" {
+				panic(fmt.Sprintf("scanner %s running concurrently with the others: %s", scannerID(w.scanners[i]), r.panic))
+			}
+			done++
+			if want, ok := w.seq[i]; ok && want != r.out && slot < len(w.scanners) {
+				diff = append(diff, fmt.Sprintf("%s:%s!=%s", scannerID(w.scanners[i]), r.out, want))
+			}
+		}
+		if len(diff) > 0 {
+			return done, fmt.Errorf("differs-from-sequential %s", strings.Join(diff, ","))
+		}
+		return done, nil
+	})
+}
+
+// realScan is indexer.LayerScanner.Scan on the layer, as the indexer calls it
+// (scanner panics are not recovered there: they take the worker down).
+func (w *workerState) realScan(blob []byte, desc *claircore.LayerDescription) callOut {
+	if w.real == nil {
+		return callOut{status: "err", msg: "no LayerScanner"}
+	}
+	prev := runtime.GOMAXPROCS(concurrentProcs)
+	defer runtime.GOMAXPROCS(prev)
+	return measured(func(ctx context.Context) (int, error) {
+		var l claircore.Layer
+		if err := l.Init(ctx, desc, bytes.NewReader(blob)); err != nil {
+			return 0, fmt.Errorf("second Init of the same blob failed: %w", err)
+		}
+		defer l.Close()
+		w.store.mu.Lock()
+		w.store.indexed, w.store.set = 0, 0
+		w.store.mu.Unlock()
+		d, err := claircore.ParseDigest(desc.Digest)
+		if err != nil {
+			return 0, err
+		}
+		err = w.real.Scan(ctx, d, []*claircore.Layer{&l})
+		w.store.mu.Lock()
+		n := w.store.set
+		w.store.mu.Unlock()
+		return n, err
+	})
 }
 
 func workerMain() {
@@ -377,9 +613,15 @@ func workerMain() {
 	quiet()
 	debug.SetTraceback("single")
 
-	lim := syscall.Rlimit{Cur: workerASLimit, Max: workerASLimit}
-	if err := syscall.Setrlimit(syscall.RLIMIT_AS, &lim); err != nil {
-		fmt.Fprintln(os.Stderr, "c06 worker: setrlimit:", err)
+	raceMode := os.Getenv(envWorkerRace) == "1"
+	sysLimit := uint64(workerSysLimit)
+	if raceMode {
+		sysLimit = 16 << 30
+	} else {
+		lim := syscall.Rlimit{Cur: workerASLimit, Max: workerASLimit}
+		if err := syscall.Setrlimit(syscall.RLIMIT_AS, &lim); err != nil {
+			fmt.Fprintln(os.Stderr, "c06 worker: setrlimit:", err)
+		}
 	}
 	parent := os.Getppid()
 	go func() {
@@ -390,8 +632,8 @@ func workerMain() {
 				os.Exit(0) // the harness is gone (a spinning scanner would not notice the closed pipe)
 			}
 			runtime.ReadMemStats(&m)
-			if m.Sys > workerSysLimit {
-				fmt.Fprintf(os.Stderr, "fatal error: c06 worker: runtime.MemStats.Sys=%d exceeds %d\n", m.Sys, uint64(workerSysLimit))
+			if m.Sys > sysLimit {
+				fmt.Fprintf(os.Stderr, "fatal error: c06 worker: runtime.MemStats.Sys=%d exceeds %d\n", m.Sys, sysLimit)
 				os.Exit(2)
 			}
 		}
@@ -400,17 +642,28 @@ func workerMain() {
 	ctx := context.Background()
 	var skipped []string
 	w.scanners, skipped = buildScanners(ctx, os.Getenv(envWorkerDir))
-	all := make([]int, len(w.scanners))
-	ids := make([]string, len(w.scanners))
+	w.store = &nullStore{}
+	if ls, err := buildLayerScanner(ctx, os.Getenv(envWorkerDir), w.store); err != nil {
+		skipped = append(skipped, "indexer.NewLayerScanner: "+oneLine(err.Error(), 200))
+	} else {
+		w.real = ls
+	}
+	all := make([]int, len(w.scanners)+len(pseudoCalls))
+	ids := make([]string, len(w.scanners)+len(pseudoCalls))
 	for i, s := range w.scanners {
-		all[i] = i
 		ids[i] = scannerID(s)
 	}
+	for i := range all {
+		all[i] = i
+	}
+	copy(ids[len(w.scanners):], pseudoCalls)
 	// Warm-up: one well-formed layer holding a file for every scanner, twice,
 	// so that lazily built tables are not charged to the first layer served.
-	warm := warmupLayer()
-	w.layer(warm, all, false)
-	w.layer(warm, all, false)
+	if !raceMode {
+		warm := warmupLayer()
+		w.layer(warm, all, false)
+		w.layer(warm, all, false)
+	}
 
 	hello := strings.Join(ids, "\n")
 	if len(skipped) > 0 {
